@@ -309,6 +309,7 @@ var c54AEs = []string{
 	"gzip;q=1", "gzip;q=0.5, br;q=0.1", "gzip;q=0.001", "br;q=1.0", "gzip ;q=0.8", "br ; q=0.5",
 	"identity", "identity;q=0", "*", "*;q=0", "*;q=0, gzip", "*;q=0, br;q=0.5", "gzip;q=0, *", "br;q=0, *;q=1",
 	"deflate", "compress, deflate", "x-gzip", "gzipx", "xbr", "gzip-br", "brotli", "", " ",
+	"*, gzip;q=0", "*, br;q=0", "gzip;q=0, *;q=0.5", "br, *;q=0.1, gzip;q=0", "gzip, *;q=0.1, br;q=0", "*;q=1, gzip;q=0, br;q=0", "identity, *, gzip;q=0.0", "* , br ;q=0",
 	"gzip;q=0, br", "br;q=0, gzip", "gzip ;q=0, br ;q=0", "gzip, br;q=0", "br, gzip ;q=0",
 }
 
@@ -398,7 +399,60 @@ func TestC54(t *testing.T) {
 	n := 0
 	run := func(tb ev.TB, c *c54Case) {
 		n++
-		c54One(tb, rec, w, c, n, &nComp)
+		c54One(tb, rec, w, c, n, &nComp, "", nil)
+	}
+	// burst: one response completed first, then the others concurrently under the same rule;
+	// exchanges run in goroutines, every response is judged afterwards in this goroutine
+	burst := func(tb ev.TB, cases []*c54Case) {
+		ruleJSON, err := w.load(cases[0].Rules)
+		if err != nil {
+			tb.Fatalf("harness: mod_compress refused generated rule file %s: %v", ruleJSON, err)
+		}
+		n++
+		c54One(tb, rec, w, cases[0], n, &nComp, ruleJSON, nil, "burst-warmup")
+		rest := cases[1:]
+		ns := make([]int, len(rest))
+		res := make([]exch, len(rest))
+		tgts := make([]string, len(rest))
+		var wg sync.WaitGroup
+		for i, c := range rest {
+			n++
+			ns[i] = n
+			tgt, raw := c54Request(c, n)
+			tgts[i] = tgt
+			w.be.set(tgt, c.Script)
+			wg.Add(1)
+			go func(i int, raw []byte, method string) {
+				defer wg.Done()
+				res[i] = exchangeAll(w.rig.HTTPAddr, raw, method, 60*time.Second)
+			}(i, raw, c.Method)
+		}
+		wg.Wait()
+		for i, c := range rest {
+			w.be.del(tgts[i])
+			c54One(tb, rec, w, c, ns[i], &nComp, ruleJSON, &res[i], "concurrent")
+		}
+	}
+	mkBurst := func(rule c54Rule, k int, size func(i int) int, seed byte) []*c54Case {
+		var cs []*c54Case
+		for i := 0; i < k; i++ {
+			n := size(i)
+			// every client gets its own recognisable, moderately compressible body
+			unit := []byte(fmt.Sprintf("<client %d of burst seed %d> ", i, seed))
+			body := append(bytes.Repeat(unit, n/(2*len(unit))+1), c54Expand([]byte{seed, byte(i)}, n/2)...)
+			var splits []int
+			for p := 300; p < len(body); p += 3000 {
+				splits = append(splits, p)
+			}
+			cs = append(cs, &c54Case{Rules: []c54Rule{rule}, Path: "/other/x", Method: "GET", Proto: "HTTP/1.1", AE: "gzip, br", HasAE: true, BodyCls: "body-burst",
+				Script: &c54Script{Status: 200, Body: body, Framing: []string{"cl", "chunked"}[i%2], Splits: splits, Pause: true, UpCT: "text/plain"}})
+		}
+		return cs
+	}
+	for round := 0; round < 2; round++ {
+		for _, rule := range []c54Rule{{Cond: "default_t()", Cmd: "GZIP", Quality: 5, FlushSize: 512}, {Cond: "default_t()", Cmd: "BROTLI", Quality: 4, FlushSize: 512}, {Cond: "default_t()", Cmd: "GZIP", Quality: -1, FlushSize: 4096}} {
+			burst(t, mkBurst(rule, 9, func(i int) int { return 8000 + 7000*i }, byte(round)))
+		}
 	}
 	// deterministic sweep: every Accept-Encoding spelling against both algorithms
 	for _, cmd := range []string{"GZIP", "BROTLI"} {
@@ -410,6 +464,14 @@ func TestC54(t *testing.T) {
 		}
 	}
 	rapid.Check(t, func(rt *rapid.T) {
+		if rapid.IntRange(0, 7).Draw(rt, "burst") == 0 {
+			rule := c54GenAction(rt, "burst")
+			rule.Cond = "default_t()"
+			k := rapid.IntRange(3, 8).Draw(rt, "burst-clients")
+			sizes := rapid.SliceOfN(rapid.IntRange(0, 60000), k, k).Draw(rt, "burst-sizes")
+			burst(rt, mkBurst(rule, k, func(i int) int { return sizes[i] }, byte(rapid.IntRange(0, 255).Draw(rt, "burst-seed"))))
+			return
+		}
 		c := &c54Case{}
 		if rapid.IntRange(0, 3).Draw(rt, "two-rules") == 0 {
 			r0 := c54GenAction(rt, "r0")
@@ -478,27 +540,37 @@ func c54Decompress(coding string, b []byte) ([]byte, error) {
 	return nil, fmt.Errorf("unknown coding %q", coding)
 }
 
-func c54One(tb ev.TB, rec *ev.Rec, w *c54World, c *c54Case, n int, nComp *int) {
-	s := c.Script
-	ruleJSON, err := w.load(c.Rules)
-	if err != nil {
-		tb.Fatalf("harness: mod_compress refused generated rule file %s: %v", ruleJSON, err)
-	}
-	target := fmt.Sprintf("%s?n=%d", c.Path, n)
-	w.be.set(target, s)
-	defer w.be.del(target)
-	var raw bytes.Buffer
-	fmt.Fprintf(&raw, "%s %s %s\r\nHost: c.example.org\r\n", c.Method, target, c.Proto)
+// c54Request builds the raw request of case c (n makes the target unique).
+func c54Request(c *c54Case, n int) (target string, raw []byte) {
+	target = fmt.Sprintf("%s?n=%d", c.Path, n)
+	var b bytes.Buffer
+	fmt.Fprintf(&b, "%s %s %s\r\nHost: c.example.org\r\n", c.Method, target, c.Proto)
 	if c.Proto == "HTTP/1.1" {
-		raw.WriteString("Connection: close\r\n")
+		b.WriteString("Connection: close\r\n")
 	}
 	if c.HasAE {
-		fmt.Fprintf(&raw, "Accept-Encoding: %s\r\n", c.AE)
+		fmt.Fprintf(&b, "Accept-Encoding: %s\r\n", c.AE)
 		if c.AE2 != "" {
-			fmt.Fprintf(&raw, "Accept-Encoding: %s\r\n", c.AE2)
+			fmt.Fprintf(&b, "Accept-Encoding: %s\r\n", c.AE2)
 		}
 	}
-	raw.WriteString("\r\n")
+	b.WriteString("\r\n")
+	return target, b.Bytes()
+}
+
+// c54One judges one case. With pre == nil it loads the rules, scripts the backend and
+// performs the exchange itself; a burst passes the already loaded rule file and the
+// exchange it performed concurrently with others.
+func c54One(tb ev.TB, rec *ev.Rec, w *c54World, c *c54Case, n int, nComp *int, ruleJSON string, pre *exch, extraCls ...string) {
+	s := c.Script
+	if ruleJSON == "" {
+		var err error
+		ruleJSON, err = w.load(c.Rules)
+		if err != nil {
+			tb.Fatalf("harness: mod_compress refused generated rule file %s: %v", ruleJSON, err)
+		}
+	}
+	target, rawReq := c54Request(c, n)
 
 	// which rule applies (first matching, as documented)
 	var rule *c54Rule
@@ -519,6 +591,7 @@ func c54One(tb ev.TB, rec *ev.Rec, w *c54World, c *c54Case, n int, nComp *int) {
 	}
 	nt := pieces > 1 || (rule != nil && len(s.Body) > rule.FlushSize)
 	cls := []string{c.BodyCls, "framing-" + s.Framing, "method-" + c.Method, c.Proto, fmt.Sprintf("status-%d", s.Status)}
+	cls = append(cls, extraCls...)
 	if rule != nil {
 		cls = append(cls, "rule-"+rule.Cmd)
 	} else {
@@ -546,8 +619,15 @@ func c54One(tb ev.TB, rec *ev.Rec, w *c54World, c *c54Case, n int, nComp *int) {
 		"backend": map[string]any{"status": s.Status, "framing": s.Framing, "body_len": len(s.Body), "body_class": c.BodyCls, "body_head_hex": fmt.Sprintf("%x", s.Body[:min(len(s.Body), 24)]), "splits": s.Splits, "pause": s.Pause, "content_encoding": s.UpCE}}
 	rec.Sample(desc)
 
-	e := exchangeAll(w.rig.HTTPAddr, raw.Bytes(), c.Method, 30*time.Second)
-	wit := map[string]any{"case": desc, "response_head": clip(e.Raw, 300)}
+	var e exch
+	if pre != nil {
+		e = *pre
+	} else {
+		w.be.set(target, s)
+		e = exchangeAll(w.rig.HTTPAddr, rawReq, c.Method, 30*time.Second)
+		w.be.del(target)
+	}
+	wit := map[string]any{"case": desc, "response_head": clip(e.Raw, 300), "concurrent": pre != nil}
 	if e.Timeout || (e.Msg == nil && len(e.Raw) == 0) {
 		rec.Excluded("no-response-inconclusive")
 		return
@@ -661,9 +741,13 @@ func c54One(tb ev.TB, rec *ev.Rec, w *c54World, c *c54Case, n int, nComp *int) {
 		rec.Class("compressed-bodyless")
 		return
 	}
+	conc := ""
+	if pre != nil {
+		conc = "-under-concurrency" // discriminating feature: other compressed responses were in flight
+	}
 	got, derr := c54Decompress(ce, m.Body)
 	if derr != nil {
-		rec.Fail(tb, "decompress-error", wit, "%s body of %d bytes does not decompress: %v (got %d of %d bytes)", ce, len(m.Body), derr, len(got), len(wantBody))
+		rec.Fail(tb, "decompress-error"+conc, wit, "%s body of %d bytes does not decompress: %v (got %d of %d bytes)", ce, len(m.Body), derr, len(got), len(wantBody))
 		return
 	}
 	if !bytes.Equal(got, wantBody) {
@@ -671,7 +755,7 @@ func c54One(tb ev.TB, rec *ev.Rec, w *c54World, c *c54Case, n int, nComp *int) {
 		for i < len(got) && i < len(wantBody) && got[i] == wantBody[i] {
 			i++
 		}
-		rec.Fail(tb, "decompressed-body-differs", wit, "%s body decompresses to %d bytes, backend sent %d; first difference at offset %d", ce, len(got), len(wantBody), i)
+		rec.Fail(tb, "decompressed-body-differs"+conc, wit, "%s body decompresses to %d bytes, backend sent %d; first difference at offset %d", ce, len(got), len(wantBody), i)
 		return
 	}
 }
